@@ -9,7 +9,7 @@
     only on a connection that is not blocked, blocking pops are not sent inside MULTI, QUIT is a
     disconnect.  A server whose event loop has ended ([b_crashed]) takes no step. *)
 From Ferrous Require Import Base.Bytes Generated Model.Resp Model.Types Model.Strings Model.Lists
-  Model.Server Model.Blocking Spec.BlockingSpec Proofs.BlockingFacts.
+  Model.Server Model.Blocking Spec.BlockingSpec Proofs.BlockingFacts Proofs.BlockingCons.
 Open Scope Z_scope.
 
 (** ---- registry / connection-state agreement ---- *)
@@ -91,6 +91,21 @@ Theorem c13_deadline : forall left now s b c dbi parts oms rep s' b' cn,
      zlookup c (b_blk b') = Some {| bl_db := dbi; bl_keys := keys; bl_dl := option_map (fun ms => now + ms) tmo; bl_left := left |}).
 Proof. exact blocking_call_deadline. Qed.
 
+(** ---- the functions the correspondence runs are sequences of these steps ---- *)
+(** process_connection: the frames of one read are EFrame steps of that connection, in order *)
+Theorem c13_batch_is_frames : forall fs now s b c,
+  b_crashed b = false -> forallb (fun fo => negb (is_quit (fst fo))) fs = true ->
+  serve_batch now s b c fs false = run (s, b) (map (fun fo => EFrame now c (fst fo) (snd fo)) fs).
+Proof. exact serve_batch_is_run. Qed.
+(** one iteration of Server::run: wake-ups, reads of the connections that are not blocked, timeouts *)
+Theorem c13_iteration_phases : forall now s b, b_crashed b = false ->
+  iteration now (s, b) =
+    (let sb1 := step (s, b) EWakeups in
+     if b_crashed (snd sb1) then sb1 else
+     let sb2 := process_conns now (fst sb1) (snd sb1) in
+     (fst sb2, process_timeouts now (snd sb2))).
+Proof. exact iteration_phases. Qed.
+
 (** ---- FIFO service per key ---- *)
 Theorem c13_fifo_join_back : forall db c left dl keys r rk,
   exists n, reg_get (register r db c keys left dl) rk = reg_get r rk ++ repeat (mkw c dl left) n
@@ -114,6 +129,28 @@ Theorem c13_fifo_wake_queue : forall s b, b_crashed b = false ->
   b_wake (snd (process_wakeups s b)) = skipn 32 (b_wake b) \/ b_crashed (snd (process_wakeups s b)) = true.
 Proof. exact fifo_wake_queue. Qed.
 
+(** ---- conservation: pushed = returned + remaining, as a multiset equation per list ----
+    Over all histories ([reach_g]) of requests from the list catalogue of the property - LPUSH,
+    RPUSH, LPOP, RPOP, BLPOP, BRPOP (any number of keys, any timeout), LLEN, LRANGE, LINDEX,
+    MULTI/EXEC/DISCARD of those, SELECT, PING, well-formed or not - from any number of
+    connections, wake-up and timeout phases at any instants, connects, and disconnects of
+    connections that are not blocked, under the hypotheses of the agreement theorems.
+    P: every element of every push that was answered with an integer; R: every element a client
+    was sent (LPOP/RPOP bulk replies, BLPOP/BRPOP replies at once or at a wake-up). *)
+Theorem c13_conservation : forall st P R, reach_g st P R ->
+  forall db k x, 0 <= db -> ecount (db, k, x) P = ecount (db, k, x) R + occ x (list_at (fst st) db k).
+Proof. exact conservation. Qed.
+(** no duplicate delivery: nothing is returned more often than it was pushed *)
+Theorem c13_no_duplicate : forall st P R, reach_g st P R ->
+  forall db k x, 0 <= db -> ecount (db, k, x) R <= ecount (db, k, x) P.
+Proof. exact no_duplicate. Qed.
+(** in these histories the event loop never ends (the wake-up always finds a list or nothing) *)
+Theorem c13_no_crash : forall st P R, reach_g st P R -> b_crashed (snd st) = false.
+Proof. exact no_crash. Qed.
+Theorem c13_history_reachable : forall evs st P R, reach_g st P R -> all_ok_cons st evs = true ->
+  reach_g (fst (fst (gtrace st P R evs))) (snd (fst (gtrace st P R evs))) (snd (gtrace st P R evs)).
+Proof. exact gtrace_reach. Qed.
+
 (** ---- non-vacuity: a history inside every hypothesis ---- *)
 Example c13_good_history :
   all_ok sys0 w_good = true /\
@@ -122,6 +159,12 @@ Example c13_good_history :
   out_to st 2 = [FArray [FBulk (bs "q"); FBulk (bs "c")]; FNullArray] /\   (* ... BRPOP the tail; later nil at its deadline *)
   out_to st 3 = [FInt 3] /\ list_at (fst st) 0 (bs "q") = [bs "b"] /\
   waiting st 0 (bs "q") = [] /\ waiting st 0 (bs "r") = [] /\ waiting st 0 (bs "m") = [] /\ b_blk (snd st) = [].
+Proof. vm_compute. repeat split; reflexivity. Qed.
+(** the same history with its multisets: three pushed, two returned, one remaining *)
+Example c13_good_history_conserved :
+  all_ok_cons sys0 w_good = true /\
+  snd (fst (gtrace sys0 [] [] w_good)) = [(0, bs "q", bs "a"); (0, bs "q", bs "b"); (0, bs "q", bs "c")] /\
+  snd (gtrace sys0 [] [] w_good) = [(0, bs "q", bs "a"); (0, bs "q", bs "c")].
 Proof. vm_compute. repeat split; reflexivity. Qed.
 
 (** ---- known classes: what fails outside the hypotheses ---- *)
